@@ -277,6 +277,34 @@ func corpusC07() []*scen.Scenario {
 		s.InConv = false
 		out = append(out, s)
 	}
+	// an error-returning converter whose RESULT reaches the field only through a conversion (:typecast)
+	// or String() (:stringer), in a method without error result: the wrapping must not hide the error
+	for _, k := range []string{"cast", "str", "castptr"} {
+		id := "kc07wrap" + k
+		b := scen.NewBuilder(nil, scen.Profile{}, id, id)
+		b.Struct("", "A", "X int", "V int")
+		switch k {
+		case "cast":
+			b.Struct("", "B", "X int", "V int64")
+			b.Func("func cvE(v int) (int32, error) {\n\tvtr.Enter(\"cvE\", v)\n\tif vtr.Fail(\"cvE\") {\n\t\treturn 0, vtr.ErrOf(\"cvE\")\n\t}\n\treturn int32(v + 1), nil\n}\n", true, "cvE")
+		case "castptr":
+			b.Struct("", "B", "X int", "V MyInt")
+			b.Func("type MyInt int\n", false, "")
+			b.Func("func cvE(v *int) (int, error) {\n\tvtr.Enter(\"cvE\", *v)\n\tif vtr.Fail(\"cvE\") {\n\t\treturn 0, vtr.ErrOf(\"cvE\")\n\t}\n\treturn *v + 1, nil\n}\n", true, "cvE")
+		case "str":
+			b.Struct("", "B", "X int", "V string")
+			b.Func("type St struct{ N int }\n\nfunc (s St) String() string { return \"st\" }\n", false, "")
+			b.Func("func cvE(v int) (St, error) {\n\tvtr.Enter(\"cvE\", v)\n\tif vtr.Fail(\"cvE\") {\n\t\treturn St{}, vtr.ErrOf(\"cvE\")\n\t}\n\treturn St{v}, nil\n}\n", true, "cvE")
+		}
+		opt := "typecast"
+		if k == "str" {
+			opt = "stringer"
+		}
+		m := &scen.Method{Name: "Wrap", Src: scen.Param{Type: "*A"}, Dst: scen.Param{Type: "*B"}, Notations: []scen.Notation{scen.N(opt), scen.N("conv", "cvE", "V", "V")}, ErrSites: []string{"cvE"}}
+		s := b.Manual(m)
+		s.InConv = false
+		out = append(out, s)
+	}
 	// callbacks whose "error" result is a CONCRETE pointer type implementing error: wiring them through an
 	// `err error` variable would turn a typed nil into a non-nil error. They must be rejected, or - if a
 	// future version accepts them - return a nil error when nothing fails (judged dynamically below).
